@@ -26,11 +26,11 @@ def sh(cmd, cwd, env=None, timeout=900):
     return r.returncode, (r.stdout + r.stderr)[-600:]
 
 
-def ingest(pid):
-    wt = f"/tmp/wt-{pid}"
+def ingest(pid, wt=None, start=1):
+    wt = wt or f"/tmp/wt-{pid}"
     meta = json.load(open(os.path.join(wt, "meta.json")))
     env = {"PYTHONPATH": wt, "PYTHONDONTWRITEBYTECODE": "1"}
-    for n, m in enumerate(meta, 1):
+    for n, m in enumerate(meta, start):
         patch, demo = os.path.join(wt, m["patch"]), os.path.join(wt, m["demo"])
         log = []
         sh(["git", "checkout", "--", "pdpy11"], wt)
@@ -74,9 +74,11 @@ def main():
     ap.add_argument("--props")
     ap.add_argument("--tier", default="quick")
     ap.add_argument("-v", action="store_true")
+    ap.add_argument("--wt")
+    ap.add_argument("--start", type=int, default=1)
     a = ap.parse_args()
     if a.cmd == "ingest":
-        ingest(a.args[0])
+        ingest(a.args[0], a.wt, a.start)
     elif a.cmd == "verify":
         # demo passes on the current /repo tree and fails on a scratch copy with the patch applied
         sys.path.insert(0, os.path.join(HERE, "tools"))
@@ -113,6 +115,7 @@ def main():
             print(f"{name} {pid}: rc={rc} violations={nv}")
     elif a.cmd == "all":
         bad = 0
+        rows = []
         for name in sorted(os.listdir(os.path.join(HERE, "seeded"))):
             if not os.path.exists(os.path.join(HERE, "seeded", name, "patch.diff")):
                 continue
@@ -126,9 +129,20 @@ def main():
                 status = "CAUGHT" if rc == 1 else ("MISSED" if rc == 0 else "HARNESS-ERROR")
                 bad += rc != 1
                 print(f"{status:14s} {p} {name}")
+                try:
+                    meta = json.load(open(os.path.join(HERE, "seeded", name, "meta.json")))
+                except (OSError, ValueError):
+                    meta = {}
+                rows.append((name, p, status, (meta.get("summary") or "")[:160].replace("\n", " ").replace("|", "/")))
                 if a.v and rc != 1:
                     print(tail)
             sys.stdout.flush()
+        if not a.props:
+            with open(os.path.join(HERE, "seeded", "RESULTS.md"), "w") as f:
+                f.write("# Seeded changes (independent sub-agents) against the check of the property they break\n\n")
+                f.write(f"tier: {a.tier}; regenerate with `python3 tools/seed.py all`\n\n| seed | check | result | change |\n|---|---|---|---|\n")
+                for r in rows:
+                    f.write("| " + " | ".join(r) + " |\n")
         sys.exit(1 if bad else 0)
 
 
